@@ -1430,6 +1430,117 @@ func (w *world) lockedThenReproposedPrefix() {
 	w.pool = nil
 }
 
+// zeroWeightWorld / zeroWeightScript: five correct members, the second one without weight. The members evaluate quorums
+// (PREPAREs of view 0) and then time out through a whole rotation; every VIEW_CHANGE must go to the member at position
+// view mod 5 of the ordered committee, zero weight or not (C18).
+func zeroWeightWorld(r *rand.Rand, rep *Report, seed int64) *world {
+	w := &world{r: r, rep: rep, ord: rand.New(rand.NewSource(seed ^ 0x5bd1e995)), kr: newKeyring(seed), byz: map[uint64]bool{}, byId: map[uint64]*simNode{}, signed: map[string]bool{},
+		proposedBy: map[uint64]uint64{}, validatedBy: map[uint64][]uint64{}, failCommit: map[uint64][]uint64{}, excl: map[uint64][]uint64{}, chain: map[uint64]*aBlock{}, held: map[uint64]bool{}}
+	w.codec = newCodec(w.kr)
+	w.n, w.weights, w.rot = 5, []uint64{1, 0, 1, 1, 1}, 0
+	for i := uint64(0); i < 5; i++ {
+		n := w.newNode(i)
+		w.honest = append(w.honest, n)
+		w.byId[i] = n
+	}
+	return w
+}
+func (w *world) zeroWeightScript() {
+	for _, n := range w.honest {
+		w.sync(n, nil)
+	}
+	for _, id := range []uint64{1, 2, 3, 4} {
+		w.take(id, "PP", 0)
+	}
+	w.take(2, "P", 3) // one PREPARE each: a quorum is evaluated, nobody gets prepared (weights 1,0,1,1,1: quorum 3)
+	w.take(3, "P", 2)
+	w.take(4, "P", 2)
+	w.take(0, "P", 2)
+	w.take(1, "P", 2)
+	w.pool = nil
+	for v := uint64(0); v < 6; v++ {
+		for _, n := range w.honest {
+			st := n.vn.State()
+			if uint64(st.Height()) == 1 && uint64(st.View()) == v {
+				w.election(n, 1, v)
+			}
+		}
+		w.pool = nil // the votes are lost: everybody keeps timing out
+	}
+}
+
+// twoProofsScript (member 3 Byzantine, leader of view 3): member 0 gets prepared on A in view 1, member 1 on B in view 2
+// (the leader of view 2 was elected by votes without proofs, so B is a fresh block). Everybody times out into view 3,
+// whose Byzantine leader embeds both genuine votes - the one with the higher proof FIRST - and proposes the older
+// block A. The NEW_VIEW must be ignored: the proposal has to be the block of the highest proof (C07, C09).
+func (w *world) twoProofsScript() {
+	for _, n := range w.honest {
+		w.sync(n, nil)
+	}
+	w.pool = nil // view 0: the proposal is lost
+	for _, id := range []uint64{0, 1, 2} {
+		w.election(w.byId[id], 1, 0)
+	}
+	w.takeV(1, "VC", 0, 1)
+	w.takeV(1, "VC", 2, 1) // member 1 elected for view 1 (own vote + two): proposes a fresh block A
+	w.takeV(0, "NV", 1, 1)
+	w.takeV(2, "NV", 1, 1)
+	w.takeV(0, "P", 2, 1) // member 0: own PREPARE + leader + member 2 = prepared on A in view 1
+	w.pool = nil
+	for _, id := range []uint64{1, 2} {
+		w.election(w.byId[id], 1, 1)
+	}
+	w.election(w.byId[0], 1, 1)
+	w.takeV(2, "VC", 1, 2)
+	w.inject(w.byId[2], &aMsg{Kind: "VC", Vote: &aVote{5, worldInst, 1, 2, nil, aSig{3, true}}}, "byz-VC") // member 2 elected for view 2 without seeing member 0's lock
+	var a, b uint64
+	for _, m := range w.history {
+		if m.Kind == "NV" && m.NVView == 1 {
+			a = m.Ref.Hash
+		}
+		if m.Kind == "NV" && m.NVView == 2 {
+			b = m.Ref.Hash
+		}
+	}
+	if a == 0 || b == 0 || a == b {
+		w.rep.count("world:directed-two-proofs-setup-failed")
+		return
+	}
+	w.takeV(1, "NV", 2, 2)
+	w.inject(w.byId[1], &aMsg{Kind: "P", Ref: aRef{2, worldInst, 1, 2, b}, Snd: aSig{3, true}}, "byz-P") // member 1: own + leader 2 + Byzantine 3 = prepared on B in view 2
+	w.pool = nil
+	for _, id := range []uint64{0, 1, 2} {
+		w.election(w.byId[id], 1, 2)
+	}
+	var v0, v1 *aVote
+	for _, m := range w.history {
+		if m.Kind == "VC" && m.Vote.View == 3 && m.Vote.Snd.Ok {
+			c := cloneVote(*m.Vote)
+			if m.Vote.Snd.Id == 0 {
+				v0 = &c
+			}
+			if m.Vote.Snd.Id == 1 {
+				v1 = &c
+			}
+		}
+	}
+	if v0 == nil || v1 == nil || v0.Proof == nil || v1.Proof == nil {
+		w.rep.count("world:directed-two-proofs-setup-failed")
+		return
+	}
+	votes := []aVote{*v1, *v0, {5, worldInst, 1, 3, nil, aSig{3, true}}}
+	nv := &aMsg{Kind: "NV", NVType: 4, NVInst: worldInst, NVHeight: 1, NVView: 3, Votes: votes, Snd: aSig{3, true},
+		Ref: aRef{1, worldInst, 1, 3, a}, PPSnd: aSig{3, true}, Block: w.blockOfHash(a)}
+	for _, to := range []uint64{0, 1, 2} {
+		w.inject(w.byId[to], nv.clone(), "byz-NV-older-block-higher-proof-first")
+	}
+	for k := 0; k < 60 && len(w.pool) > 0; k++ {
+		p := w.pool[0]
+		w.pool = w.pool[1:]
+		w.deliverG(w.byId[p.to], p.msg, p.raw, p.genuine)
+	}
+}
+
 func (w *world) kf1ForkScript() {
 	for _, n := range w.honest {
 		w.sync(n, nil)
